@@ -8,8 +8,11 @@ with `-k gevent` (gunicorn's own response code) and with `-k gevent_pywsgi`.
 The client counts the body bytes it receives (after removing the chunked
 framing); the access log must report that number.
 """
+import os as _os
+_TREE_UNDER_TEST = _os.environ.get("GVERIF_REPO") or _os.getcwd()   # the checkout under test (was the auditing agent's scratch worktree)
+
 import sys
-sys.path.insert(0, "/tmp/wa_C19")
+sys.path.insert(0, _TREE_UNDER_TEST)
 
 import os
 import shutil
@@ -19,7 +22,7 @@ import tempfile
 import textwrap
 import time
 
-ROOT = "/tmp/wa_C19"
+ROOT = _TREE_UNDER_TEST
 
 
 def free_port():
